@@ -962,3 +962,108 @@ package state
 //@ ensures[precedence-order] rerr == nil ==> forall a int, b int :: 0 <= a && a < b && b < len(list) ==> !structs.IntentionPrecedenceSorter(list).Less(b, a)
 //@ modifies nothing
 
+// ---- C02 (restore half, per record type): a restorer stores the decoded object verbatim - same object, content
+// and create/modify indexes untouched - under its own key, leaves every other row alone, and merges the table's
+// index entry by maximum (so the order in which rows and the index table are restored does not matter).
+//@ file kvs.go
+
+//@ func Restore.KVS
+//@ props C02
+//@ results err
+//@ requires s != nil && entry != nil
+//@ ensures[stored-verbatim] err == nil ==> T_kvs(entry.Key) == entry
+//@ ensures[content-and-indexes-untouched] entry.Key == old(entry.Key) && eq(entry.Value, old(entry.Value)) && entry.Flags == old(entry.Flags) && entry.Session == old(entry.Session) && entry.LockIndex == old(entry.LockIndex) && entry.CreateIndex == old(entry.CreateIndex) && entry.ModifyIndex == old(entry.ModifyIndex)
+//@ ensures[index-max-merged] err == nil ==> idxVal("kvs") == ite(old(idxVal("kvs")) >= entry.ModifyIndex, old(idxVal("kvs")), entry.ModifyIndex)
+//@ ensures[other-rows-untouched] (forall k string :: k != entry.Key ==> T_kvs(k) == old(T_kvs(k))) && (forall t string :: strLower(t) != "kvs" ==> T_index(t) == old(T_index(t)))
+//@ modifies T.kvs, T.index
+
+//@ func Restore.Tombstone
+//@ props C02
+//@ results err
+//@ requires s != nil && s.store != nil && s.store.kvsGraveyard != nil && stone != nil
+//@ ensures[stored-verbatim] err == nil ==> T_tombstones(stone.Key) == stone
+//@ ensures[content-untouched] stone.Key == old(stone.Key) && stone.Index == old(stone.Index)
+//@ ensures[index-max-merged] err == nil ==> idxVal("tombstones") == ite(old(idxVal("tombstones")) >= stone.Index, old(idxVal("tombstones")), stone.Index)
+//@ ensures[other-rows-untouched] (forall k string :: k != stone.Key ==> T_tombstones(k) == old(T_tombstones(k))) && (forall k string :: T_kvs(k) == old(T_kvs(k)))
+//@ modifies T.tombstones, T.index
+
+//@ file session.go
+
+//@ func Restore.Session
+//@ props C02
+//@ results err
+//@ requires s != nil && sess != nil
+//@ ensures[stored-verbatim] err == nil ==> T_sessions(sess.ID) == sess
+//@ ensures[content-and-indexes-untouched] sess.ID == old(sess.ID) && sess.Node == old(sess.Node) && sess.Behavior == old(sess.Behavior) && sess.TTL == old(sess.TTL) && sess.LockDelay == old(sess.LockDelay) && sess.CreateIndex == old(sess.CreateIndex) && sess.ModifyIndex == old(sess.ModifyIndex)
+//@ ensures[index-max-merged] err == nil ==> idxVal("sessions") == ite(old(idxVal("sessions")) >= sess.ModifyIndex, old(idxVal("sessions")), sess.ModifyIndex)
+//@ ensures[other-sessions-untouched] forall id string :: strLower(id) != strLower(sess.ID) ==> T_sessions(id) == old(T_sessions(id))
+//@ ensures[links-never-removed] forall k string :: old(T_session_checks(k)) != nil ==> T_session_checks(k) != nil
+//@ modifies T.sessions, T.session_checks, T.index
+
+//@ file session_ce.go
+
+// storing a session row: the row itself, one check link per check id (links are only ever added), the index entry
+//@ func insertSessionTxn
+//@ props C02 C04
+//@ results err
+//@ requires session != nil
+//@ ensures[stored] err == nil ==> T_sessions(session.ID) == session
+//@ ensures[other-sessions-untouched] forall id string :: strLower(id) != strLower(session.ID) ==> T_sessions(id) == old(T_sessions(id))
+//@ ensures[links-never-removed] forall k string :: old(T_session_checks(k)) != nil ==> T_session_checks(k) != nil
+//@ ensures[index-max-or-set] err == nil ==> idxVal("sessions") == ite(updateMax && old(idxVal("sessions")) >= idx, old(idxVal("sessions")), idx)
+//@ ensures[other-indexes-untouched] forall t string :: strLower(t) != "sessions" ==> T_index(t) == old(T_index(t))
+//@ modifies T.sessions, T.session_checks, T.index
+//@ loop 1 invariant[sessions-as-stored] T_sessions(session.ID) == session && (forall id string :: strLower(id) != strLower(session.ID) ==> T_sessions(id) == old(T_sessions(id)))
+//@ loop 1 invariant[links-never-removed] forall k string :: old(T_session_checks(k)) != nil ==> T_session_checks(k) != nil
+
+//@ file connect_ca.go
+
+//@ func Restore.CARoot
+//@ props C02
+//@ results err
+//@ requires s != nil && r != nil
+//@ ensures[stored-verbatim] err == nil ==> T_connect_ca_roots(r.ID) == r
+//@ ensures[indexes-untouched] r.ID == old(r.ID) && r.Active == old(r.Active) && r.CreateIndex == old(r.CreateIndex) && r.ModifyIndex == old(r.ModifyIndex)
+//@ ensures[index-max-merged] err == nil ==> idxVal("connect-ca-roots") == ite(old(idxVal("connect-ca-roots")) >= r.ModifyIndex, old(idxVal("connect-ca-roots")), r.ModifyIndex)
+//@ ensures[other-roots-untouched] forall k string :: k != r.ID ==> T_connect_ca_roots(k) == old(T_connect_ca_roots(k))
+//@ modifies T.connect-ca-roots, T.index
+
+//@ func Restore.CAConfig
+//@ props C02
+//@ results err
+//@ requires s != nil && config != nil
+//@ ensures[stored-verbatim-unless-blank] err == nil && config.Provider != "" ==> T_connect_ca_config() == config
+//@ ensures[blank-is-skipped] config.Provider == "" ==> err == nil && T_connect_ca_config() == old(T_connect_ca_config())
+//@ ensures[indexes-untouched] config.CreateIndex == old(config.CreateIndex) && config.ModifyIndex == old(config.ModifyIndex)
+//@ modifies T.connect-ca-config
+
+//@ func Restore.CAProviderState
+//@ props C02
+//@ results err
+//@ requires s != nil && state != nil
+//@ ensures[stored-verbatim] err == nil ==> T_connect_ca_builtin(state.ID) == state
+//@ ensures[index-max-merged] err == nil ==> idxVal("connect-ca-builtin") == ite(old(idxVal("connect-ca-builtin")) >= state.ModifyIndex, old(idxVal("connect-ca-builtin")), state.ModifyIndex)
+//@ modifies T.connect-ca-builtin, T.index
+
+//@ file autopilot.go
+
+//@ func Restore.Autopilot
+//@ props C02
+//@ results err
+//@ requires s != nil && config != nil
+//@ ensures[stored-verbatim] err == nil ==> T_autopilot_config() == config
+//@ ensures[indexes-untouched] config.CreateIndex == old(config.CreateIndex) && config.ModifyIndex == old(config.ModifyIndex)
+//@ modifies T.autopilot-config
+
+//@ file state_store.go
+
+// the index table itself is restored verbatim (an entry restored later for the same table wins over the
+// max-merged value only if the snapshot carried it: the persister writes the index table last)
+//@ func Restore.IndexRestore
+//@ props C02
+//@ results err
+//@ requires s != nil && idx != nil
+//@ ensures[stored-verbatim] err == nil ==> T_index(idx.Key) == idx && idx.Value == old(idx.Value)
+//@ ensures[other-entries-untouched] forall t string :: strLower(t) != strLower(idx.Key) ==> T_index(t) == old(T_index(t))
+//@ modifies T.index
+
